@@ -167,6 +167,10 @@ func RunOn(f *encrypt.Filter, p payload.Payload, c FCfg) (*Result, error) {
 	if r.InEvent.Type != "t" || !r.InEvent.CreatedAt.Equal(created) || len(r.InEvent.Formatted) != 1 || string(r.InEvent.Formatted["pre"]) != "x" {
 		r.Findings = append(r.Findings, payload.Finding{Prop: "C10", Sig: "input-event-mutated", Msg: "the caller's event header / format table was modified"})
 	}
+	if r.Twin.MustFail != "" && r.Err == nil && !r.AllNone && true {
+		r.Findings = append(r.Findings, payload.Finding{Prop: "C09", Sig: "fail-open:bad-tag-pointer", Msg: "Process returned no error although " + r.Twin.MustFail + ": it must fail and forward nothing"})
+		return r, nil
+	}
 	if r.Err != nil {
 		if r.Out != nil {
 			r.Findings = append(r.Findings, payload.Finding{Prop: "C09", Sig: "fail-open", Msg: fmt.Sprintf("Process returned an event together with the error %v", r.Err)})
